@@ -41,7 +41,7 @@ Print Assumptions C07_text_block_line.
 (* the end-of-file sweep, step by step (Proofs/Unclosed.v): every conditional left open is reported, one diagnostic
    each and nothing else; every inline scope left open is reported, one diagnostic each, and closed (macroEm runs under
    "quiet" and is shown to log nothing there); an open filter region or definition is reported.  For any state, any
-   number of scopes.  What is not proved: the same count for block scopes, and that balanced documents are never reported. *)
+   number of scopes.  Display blocks likewise (below). What is not proved: lists, and that balanced documents are never reported. *)
 Require Unclosed.
 Theorem C07_open_conditionals_are_reported : forall l s, St.quiet s = false ->
   let s' := fold_left (fun a sc => Proc1.warn_unclosed sc a) l s in
@@ -56,5 +56,15 @@ Proof. exact Unclosed.open_inline_scopes_are_reported. Qed.
 Theorem C07_closing_logs_nothing_under_quiet : forall s, Exp.fmt s = Exp.FX -> St.quiet s = true ->
   St.quiet (Proc1.macro_em s) = true /\ St.diags (Proc1.macro_em s) = St.diags s.
 Proof. exact Unclosed.QS_macro_em. Qed.
+(* display blocks left open, in any state of the sub-language of Proofs/FragB.v (display blocks nested to any depth, any
+   open paragraph and inline markup): one diagnostic each, all of them closed; macroEd, run under "quiet" by the sweep, logs
+   nothing there *)
+Require FragB.
+Theorem C07_open_blocks_are_reported : forall K BASE MD cur f s, FragB.P K BASE MD true s -> St.quiet s = false -> (List.length (St.sblock s) <= f)%nat ->
+  let s' := Proc1.close_block_loop f cur s in
+  exists ds, St.diags s' = (ds ++ St.diags s)%list /\ List.length ds = List.length (St.sblock s) /\
+             Forall (fun d => St.d_kind d = St.runes "unclosed scope") ds /\ St.sblock s' = nil.
+Proof. exact Unclosed.open_blocks_are_reported. Qed.
+Print Assumptions C07_open_blocks_are_reported.
 Print Assumptions C07_open_conditionals_are_reported.
 Print Assumptions C07_open_inline_scopes_are_reported.
